@@ -90,7 +90,7 @@ def proof_audit(pid):
     proj = open(os.path.join(COQ, "_CoqProject")).read()
     if re.search(r"-(type-in-type|impredicative-set|bypass)", proj):
         res["failures"].append("forbidden flag in _CoqProject")
-    ok, log = build_coq(["Properties/%s.vo" % pid])
+    ok, log = build_coq(["Properties/%s.vo" % pid, "Run.vo", "Run2.vo", "Gen.vo"])
     res["log"] = log[-4000:]
     if not ok:
         res["failures"].append("make Properties/%s.vo failed" % pid)
